@@ -108,7 +108,7 @@ def eval_pair(case):
         out.append(("C13/forward/stems", "%r lies under %r (suffix_aware=%s) but stems %r are not a prefix of %r" % (v, u, sa, cu, cv)))
     if un and "" not in pu["segs"] and "" not in pv["segs"] and not lv.startswith(lu):
         out.append(("C13/forward/serialized", "%r lies under %r (suffix_aware=%s) but %r is not a string prefix of %r" % (v, u, sa, lu, lv)))
-    if pref and not un:
+    if pref and not un and not case.get("forward_only"):
         out.append(("C13/converse", "stems of %r %r are a prefix of those of %r %r (suffix_aware=%s) but it does not lie under it" % (u, cu, v, cv, sa)))
     if lv.startswith(lu) != (sv[:len(su)] == su):
         out.append(("C13/serialized-vs-stems", "string-prefix(%r, %r)=%s but list-prefix of the stems=%s" % (
@@ -122,7 +122,9 @@ HOSTS_Q = ["fr.lemonde.fr", "co.uk.bbc.co.uk", "com.evil.com", "lemonde.fr", "ww
            "bbc.co.uk", "news.bbc.co.uk", "co.uk", "uk", "kawasaki.jp", "x.kawasaki.jp", "a.x.kawasaki.jp",
            "city.kawasaki.jp", "foo.unknowntld", "fr",
            # an inner label that begins with the text of the suffix; an all-digit leftmost label
-           "company.com", "shop.company.com", "1.bp.evil.com", "bp.evil.com", "my_site.bbc.co.uk", "uk.evil.com"]
+           "company.com", "shop.company.com", "1.bp.evil.com", "bp.evil.com", "my_site.bbc.co.uk", "uk.evil.com",
+           # fully qualified spellings (root label): a different host string than the unrooted one
+           "bbc.co.uk.", "news.bbc.co.uk."]
 HOSTS_T = HOSTS_Q + ["b.a.x.kawasaki.jp", "a.city.kawasaki.jp", "jp", "com", "xlemonde.fr", "lemonde.frx", "monde.fr",
                      "a.foo.unknowntld", "blogspot.com", "me.blogspot.com", "LeMonde.FR",
                      "shop.com", "news.co.uk.bbc.co.uk", "2.cdn.bbc.co.uk", "cdn.bbc.co.uk", "0.evil.com"]
@@ -220,9 +222,33 @@ def _histories(acc, shard, nshards, seed, tier):
                         acc.check({"kind": "pair", "u": u, "v": v, "suffix_aware": sa, "before": before}, u != v, ["history:" + "+".join("same" if b[1] == sa else "other" for b in before)] if idx % 5 == 0 else ())
 
 
+USERINFOS = ["user@", "user:pw@", "jane@mail.org@", "jane@mail.org:secret@", "u:p@w@", ":pw@", "a:b:c@"]
+
+
+def _userinfo_forward(acc, shard, nshards, seed, tier):
+    """the forward half puts no condition on v's userinfo (the converse is stated for URLs without userinfo only): descendants that carry a
+    login — with '@' and ':' inside it — must still extend the stems of their ancestor"""
+    idx = 0
+    for hu, hv in [("example.co.uk", "www.example.co.uk"), ("lemonde.fr", "lemonde.fr"), ("bbc.co.uk", "news.bbc.co.uk"), ("x.kawasaki.jp", "a.x.kawasaki.jp"), ("foo.unknowntld", "foo.unknowntld")]:
+        for port in ("", ":8080"):
+            for pu_, pv_ in (("", "/a"), ("", ""), ("/a", "/a/b?q=1#f")):
+                if hv != hu and pu_:
+                    continue
+                for ui in USERINFOS:
+                    for sa in (False, True):
+                        idx += 1
+                        if idx % nshards != shard:
+                            continue
+                        u = "http://%s%s%s" % (hu, port, pu_)
+                        v = "http://%s%s%s%s" % (ui, hv, port, pv_)
+                        acc.check({"kind": "pair", "u": u, "v": v, "suffix_aware": sa, "forward_only": True}, True, ["userinfo-in-descendant"] if idx % 7 == 0 else ())
+
+
 def campaigns(tier, seed):
     n = len(universe(tier))
-    return [Campaign("pairs-after-earlier-calls", _histories, "enumeration", exhaustive=True,
+    return [Campaign("descendants-with-userinfo", _userinfo_forward, "enumeration", exhaustive=True,
+                     bounds="5 host pairs x 2 ports x 3 path shapes x 7 userinfo spellings x suffix_aware"),
+            Campaign("pairs-after-earlier-calls", _histories, "enumeration", exhaustive=True,
                      bounds="every (host, host-or-subdomain) pair of the universe x 4 path shapes x suffix_aware x 4 call histories (other mode first)"),
             Campaign("all-ordered-pairs", _pairs, "enumeration", exhaustive=True,
                      bounds="%d URLs -> %d ordered pairs x suffix_aware in {False,True}" % (n, n * n))]
